@@ -61,7 +61,18 @@ def run(sid, checks):
   rc, out = sh('git -C /repo status --porcelain --untracked-files=no')
   assert out.strip() == '', '/repo has local changes'
   rc, out = sh('git -C /repo apply %s' % patch)
-  assert rc == 0, out
+  if rc != 0:
+    # written against an older HEAD and overlapping a later fix: commit: try a 3-way merge
+    rc, out = sh('git -C /repo apply --3way %s' % patch)
+    sh('git -C /repo reset -q')
+    if rc != 0:
+      sh('git -C /repo checkout -- .')
+      mp = os.path.join(d, 'meta.json')
+      meta = json.load(open(mp))
+      meta['applies_to_repo_head'] = False
+      json.dump(meta, open(mp, 'w'), indent=1)
+      print(pid, 'patch does not apply to the current /repo HEAD:', out.strip()[:200])
+      return
   res = {}
   try:
     for c in checks:
